@@ -80,7 +80,7 @@ def run(rep):
     for group in (_request_records_once, _report_before_reset, _reported_count, _report_read_only, _stats_app_routes, _reservoir_add, _reservoir_resize,
                   _reservoir_init, _reservoir_rest, _report_reads_running_instance):
         _guarded(rep, group, rep, repo, st)
-    for rule, n in (('R19.a', 8), ('R19.b', 6), ('R19.c', 12), ('R19.d', 4)):
+    for rule, n in (('R19.a', 8), ('R19.b', 6), ('R19.c', 12), ('R19.d', 5)):
         rep.guard(rep.floor, rule, n)
 
 
@@ -326,21 +326,20 @@ def _shared_cell(repo, fi, e, anchor, L, depth=0):
         a = f.args
         if a.args or a.posonlyargs or a.kwonlyargs or a.vararg or a.kwarg:
             raise AnalysisError('%s: factory %s takes arguments' % (fi.key, short(f)))
-        body = f.body
-        if isinstance(body, (ast.Name, ast.Attribute, ast.Subscript)):
-            return True, '%s returns %s' % (short(f), short(body))
-        if isinstance(body, ast.Call):
-            if call_tail(body) == 'defaultdict':
-                sub = _shared_cell(repo, fi, body, anchor, L, depth + 1)
-                return sub if sub is not None else (False, '')
-            if _internal_class(repo, fi.mod, body.func) is not None or call_name(body) in ('dict', 'list', 'set'):
-                return False, ''
-        if isinstance(body, (ast.Dict, ast.List, ast.Set, ast.DictComp, ast.ListComp)):
-            return False, ''
-        raise AnalysisError('%s: cannot tell whether the factory %s constructs a new object per key' % (fi.key, short(f)))
+        return _made_value(repo, fi, f.body, anchor, L, short(f), depth)
     if isinstance(f, (ast.Name, ast.Attribute)):
         if _internal_class(repo, fi.mod, f) is not None or norm(f) in ('dict', 'list', 'set', 'int', 'float'):
             return False, ''
+        # a function of the analysed tree taking no arguments: what it returns, on every path
+        callee = _callee(repo, fi, ast.Call(func=f, args=[], keywords=[])) if isinstance(f, ast.Name) else None
+        if callee is not None and not callee.params():
+            Lc = diffcon.Locals(callee.node, cfg_of(callee))
+            rets = [r for r in returns_of(callee) if r.value is not None]
+            if not rets:
+                raise AnalysisError('%s: factory %s returns nothing' % (fi.key, callee.key))
+            out = [_made_value(repo, callee, Lc.resolve(r.value, r), r, Lc, callee.name + '()', depth) for r in rets]
+            bad = [o for o in out if o[0]]
+            return bad[0] if bad else (False, '')
         # a local holding a function / an object: a bound lambda is looked through, anything else is not a constructor
         if isinstance(f, ast.Name):
             b = L.binding(f.id, anchor)
@@ -348,6 +347,22 @@ def _shared_cell(repo, fi, e, anchor, L, depth=0):
                 return _shared_cell(repo, fi, ast.Call(func=e.func, args=[b[0]], keywords=[]), anchor, L, depth + 1)
         raise AnalysisError('%s: cannot tell what the factory %s of the table makes' % (fi.key, short(f)))
     raise AnalysisError('%s: factory %s of the table not understood' % (fi.key, short(f)))
+
+
+def _made_value(repo, fi, body, anchor, L, what, depth):
+    """what a factory hands out (expression ``body`` in function ``fi``): (True, text) an object that already exists, (False, '') a
+    construction; AnalysisError when it cannot be told"""
+    if isinstance(body, (ast.Name, ast.Attribute, ast.Subscript)):
+        return True, '%s returns %s' % (what, short(body))
+    if isinstance(body, ast.Call):
+        if call_tail(body) == 'defaultdict':
+            sub = _shared_cell(repo, fi, body, anchor, L, depth + 1)
+            return sub if sub is not None else (False, '')
+        if _internal_class(repo, fi.mod, body.func) is not None or call_name(body) in ('dict', 'list', 'set'):
+            return False, ''
+    if isinstance(body, (ast.Dict, ast.List, ast.Set, ast.DictComp, ast.ListComp)):
+        return False, ''
+    raise AnalysisError('%s: cannot tell whether the factory %s constructs a new object per key' % (fi.key, what))
 
 
 def _reads_table(repo, fi, depth=0, seen=()):
@@ -688,21 +703,23 @@ def _reservoir_init(rep, repo, st):
     # the count starts as the number of values the store starts with: len() of the very object bound to _data
     data_st = [s for s in stmts_of(ri.node) for t, v in _assign_pairs(s) if norm(t) == DATA]
     cnt_st = [(s, v) for s in stmts_of(ri.node) for t, v in _assign_pairs(s) if norm(t) == 'self._total_count']
-    if len(data_st) != 1 or not cnt_st:
-        raise AnalysisError('Reservoir.__init__: expected one binding of self._data and an initial self._total_count')
-    data_val = [v for t, v in _assign_pairs(data_st[0]) if norm(t) == DATA][0]
+    if not data_st or not cnt_st:
+        raise AnalysisError('Reservoir.__init__: expected a binding of self._data and an initial self._total_count')
+    data_vals = [(v, s) for s in data_st for t, v in _assign_pairs(s) if norm(t) == DATA]      # (one per branch)
+    data_val = data_vals[0][0]
     for s, v in cnt_st:
         r = Li.resolve(v, s)
         ok = isinstance(r, ast.Call) and call_name(r) == 'len' and len(r.args) == 1 and not r.keywords and \
-            (norm(r.args[0]) == DATA or Li.same(r.args[0], s, data_val, data_st[0]) or _same_name_between(cfg_of(ri), r.args[0], s, data_val, data_st[0]))
-        if not ok and isinstance(Li.resolve(data_val, data_st[0]), ast.List) and not Li.resolve(data_val, data_st[0]).elts:
+            (norm(r.args[0]) == DATA or (len(data_vals) == 1 and (Li.same(r.args[0], s, data_val, data_st[0]) or
+                                                                  _same_name_between(cfg_of(ri), r.args[0], s, data_val, data_st[0]))))
+        if not ok and all(isinstance(Li.resolve(dv, ds), ast.List) and not Li.resolve(dv, ds).elts for dv, ds in data_vals):
             ok = isinstance(r, ast.Constant) and r.value == 0 and type(r.value) is int
         rep.check('R19.c', fkey(ri, 'initial count'), ok, 'the count starts as len() of the object bound to _data' if ok else
                   'the count starts as %s, not as the number of values the store starts with (len of the object bound to _data): '
                   'count and store disagree from the first add() on' % short(v), st, s)
     # initial values are fed through add() (which counts and bounds them): nothing else in the constructor writes into the store
     mut = [c for c in walk_body(ri.node) if isinstance(c, ast.Call) and isinstance(c.func, ast.Attribute) and c.func.attr in MUTATORS
-           and Li.text(c.func.value, stmt_of(st, c)) in (DATA, norm(Li.resolve(data_val, data_st[0])))]
+           and Li.text(c.func.value, stmt_of(st, c)) in [DATA] + [norm(Li.resolve(dv, ds)) for dv, ds in data_vals if isinstance(Li.resolve(dv, ds), ast.Name)]]
     sub_st = [s for s in stmts_of(ri.node) if isinstance(s, (ast.Assign, ast.AugAssign, ast.Delete)) and
               any(isinstance(t, ast.Subscript) and Li.text(t.value, s) == DATA for t in (s.targets if not isinstance(s, ast.AugAssign) else [s.target]))]
     feeds = [l for l in stmts_of(ri.node) if isinstance(l, ast.For) and isinstance(l.target, ast.Name) and
@@ -1015,6 +1032,27 @@ def _report_reads_running_instance(rep, repo, st):
               "merge_middlewares does not keep the application's own instances ('%s'): %s.  Middleware equality is by type, so a route (or an "
               "embedded application) that lists its own StatsMiddleware() then runs that private instance, while the stats endpoints read the one "
               "in %s.middlewares: its requests are counted where nobody looks" % (kept, why, APP_PARAM), core, node)
+    # (3b) the list the endpoints search belongs to the application: its constructor binds ``self.middlewares`` to a copy, so that
+    #      nobody holding the list that was passed in can later change which collector the endpoints find (the bound routes keep
+    #      running the instances merged at bind time)
+    appm = repo.mod('clastic.application')
+    ai = appm.func('Application.__init__')
+    Lai = diffcon.Locals(ai.node, cfg_of(ai))
+    binds = [(s_, v) for s_ in stmts_of(ai.node) for t, v in _assign_pairs(s_) if norm(t) == '%s.middlewares' % (_self_name(ai) or 'self')]
+    if not binds:
+        raise AnalysisError('Application.__init__: no binding of self.middlewares')
+    shared = []
+    for s_, v in binds:
+        fresh = _fresh_list(Lai, Lai.resolve(v, s_), s_)
+        if fresh is None:
+            raise AnalysisError('Application.__init__: cannot tell whether %s is a list of its own' % short(s_))
+        if not fresh:
+            shared.append(s_)
+    rep.check('R19.d', fkey(ai, 'own middleware list'), not shared,
+              'the application keeps a copy of the middleware list it was given (%s)' % '; '.join(short(s_) for s_, _ in binds) if not shared else
+              '%s keeps the very list object the caller passed: editing that list afterwards changes which StatsMiddleware the stats endpoints find in '
+              '%s.middlewares, while the bound routes go on counting on the instance merged at bind time -- the report no longer shows the requests served'
+              % (short(shared[0]), APP_PARAM), appm, shared[0] if shared else ai.node)
     # (4) the chain is compiled from that very list
     chains = [c for c in walk_body(bi.node) if isinstance(c, ast.Call) and call_name(c) == 'make_middleware_chain' and c.args]
     if len(chains) != 1:
@@ -1045,6 +1083,38 @@ def _report_reads_running_instance(rep, repo, st):
             raise AnalysisError('BoundRoute.__init__: cannot relate the list the chain is compiled from (%s) to the merged list %s' % (got, tgt))
     rep.check('R19.d', fkey(bi, 'chain from merged list'), ok, 'the request chain is compiled from the merged list (%s)' % got if ok else
               'the request chain is compiled from %s, not from the merged middleware list %s' % (got, tgt), route, chains[0])
+
+
+def _fresh_list(L, e, anchor, depth=0):
+    """``e`` (resolved) evaluates to a list / tuple object made here: True; to an object that already exists (a name, an attribute,
+    ``x or []``): False; None when it cannot be told"""
+    if depth > 4:
+        return None
+    if isinstance(e, (ast.List, ast.Tuple, ast.ListComp, ast.Set, ast.SetComp)):
+        return True
+    if isinstance(e, ast.Call):
+        if call_name(e) in ('list', 'tuple', 'sorted', 'set', 'frozenset', 'copy', 'deepcopy', 'copy.copy', 'copy.deepcopy', 'reversed') \
+                or (isinstance(e.func, ast.Attribute) and e.func.attr == 'copy' and not e.args):
+            return True
+        return None
+    if isinstance(e, ast.Subscript) and isinstance(e.slice, ast.Slice):
+        return True
+    if isinstance(e, ast.BinOp) and isinstance(e.op, (ast.Add, ast.Mult)):
+        return True
+    if isinstance(e, ast.IfExp):
+        a, b = _fresh_list(L, e.body, anchor, depth + 1), _fresh_list(L, e.orelse, anchor, depth + 1)
+        return False if a is False or b is False else (None if a is None or b is None else True)
+    if isinstance(e, ast.BoolOp):
+        vs = [_fresh_list(L, v, anchor, depth + 1) for v in e.values]
+        return False if any(v is False for v in vs) else (None if any(v is None for v in vs) else True)
+    if isinstance(e, ast.Name) and len(L.defs.get(e.id, [])) > 1:
+        vs = [_fresh_list(L, L.resolve(L._value[(id(b), e.id)], b), b, depth + 1) for b in L.defs[e.id]]
+        return False if any(v is False for v in vs) else (None if any(v is None for v in vs) else True)
+    if isinstance(e, (ast.Name, ast.Attribute)):
+        return False
+    if isinstance(e, ast.Constant):
+        return True
+    return None
 
 
 def _merge_keeps(mm, kept):
